@@ -327,38 +327,47 @@ def adjacent_single_use(fn):
 # --------------------------------------------------------------------------------------------- attribute forward substitution
 
 def attr_forward(fn):
+    """`X.a = E` (X a plain name, E pure): following reads of X.a in the same block become E until anything named `.a` is stored to
+    (another name may alias X), something E reads is written, X is re-bound, or a call with effects mentions X."""
     for _o, _f, body in list(C._blocks(fn)):
         for i, st in enumerate(body):
             if not (isinstance(st, ast.Assign) and len(st.targets) == 1 and isinstance(st.targets[0], ast.Attribute)
-                    and isinstance(st.targets[0].value, ast.Name) and st.targets[0].value.id == 'self' and C._pure(st.value)):
+                    and isinstance(st.targets[0].value, ast.Name) and C._pure(st.value)):
                 continue
+            base = st.targets[0].value.id
             attr = st.targets[0].attr
-            if any(isinstance(n, ast.Attribute) and isinstance(n.value, ast.Name) and n.value.id == 'self' and n.attr == attr for n in ast.walk(st.value)):
+            if any(isinstance(n, ast.Attribute) and n.attr == attr for n in ast.walk(st.value)) or any(isinstance(n, ast.Name) and n.id == base for n in ast.walk(st.value)) and base != 'self':
                 continue
+
+            class T(ast.NodeTransformer):
+                def visit_Attribute(self, node):
+                    self.generic_visit(node)
+                    if isinstance(node.ctx, ast.Load) and isinstance(node.value, ast.Name) and node.value.id == base and node.attr == attr:
+                        return copy.deepcopy(st.value)
+                    return node
             for k in range(i + 1, len(body)):
                 s = body[k]
                 if not isinstance(s, (ast.Assign, ast.Expr, ast.AugAssign, ast.Return)):
                     break
-                # reads are evaluated before the statement's own stores / after-effects
-                class T(ast.NodeTransformer):
-                    def visit_Attribute(self, node):
-                        self.generic_visit(node)
-                        if isinstance(node.ctx, ast.Load) and isinstance(node.value, ast.Name) and node.value.id == 'self' and node.attr == attr:
-                            return copy.deepcopy(st.value)
-                        return node
-                impure_self = any(isinstance(n, ast.Call) and not C._noeffect(n) and any(isinstance(m, ast.Name) and m.id == 'self' for m in ast.walk(n)) for n in ast.walk(s))
-                if impure_self:
+                impure_base = any(isinstance(n, ast.Call) and not C._noeffect(n) and any(isinstance(m, ast.Name) and m.id == base for m in ast.walk(n)) for n in ast.walk(s))
+                if impure_base:
                     break
-                if isinstance(s, ast.Assign):
+                # reads (also inside the store target's index expressions) are evaluated before the statement's own store
+                if isinstance(s, ast.Return):
+                    if s.value is not None:
+                        s.value = T().visit(s.value)
+                else:
                     s.value = T().visit(s.value)
-                elif isinstance(s, ast.Expr):
-                    s.value = T().visit(s.value)
-                elif isinstance(s, ast.Return) and s.value is not None:
-                    s.value = T().visit(s.value)
-                elif isinstance(s, ast.AugAssign):
-                    s.value = T().visit(s.value)
-                wn, wp, wc = C._writes(s)
-                if ('self', attr) in wp or C._interferes(st.value, [s]):
+                    tgs = s.targets if isinstance(s, ast.Assign) else ([s.target] if isinstance(s, ast.AugAssign) else [])
+                    for tg in tgs:
+                        if isinstance(tg, ast.Subscript):
+                            tg.value = T().visit(tg.value)
+                            tg.slice = T().visit(tg.slice)
+                        elif isinstance(tg, ast.Attribute) and not (isinstance(tg.value, ast.Name) and tg.value.id == base and tg.attr == attr):
+                            tg.value = T().visit(tg.value)
+                stores_attr = any(isinstance(n, ast.Attribute) and n.attr == attr and isinstance(n.ctx, (ast.Store, ast.Del)) for n in ast.walk(s))
+                rebinds = any(isinstance(n, ast.Name) and n.id == base and isinstance(n.ctx, (ast.Store, ast.Del)) for n in ast.walk(s))
+                if stores_attr or rebinds or C._interferes(st.value, [s]):
                     break
 
 
